@@ -1,18 +1,23 @@
 #!/bin/sh
-# Applies each deliberate property-breaking change under mutants/<ID>/*.patch to /repo,
-# runs the quick check of <ID> and requires a VIOLATION; always restores /repo.
+# Applies each deliberate property-breaking change under mutants/<ID>/*.patch to a SCRATCH WORKTREE of
+# /repo (never to /repo itself), runs the quick check of <ID> against that tree and requires a VIOLATION.
 # usage: tools/selftest.sh [ID ...]
 cd "$(dirname "$0")/.."
 ids="$*"
 [ -z "$ids" ] && ids=$(ls mutants)
 rc=0
+wt=/root/.cache/verif-selftest/wt.$$
+mkdir -p /root/.cache/verif-selftest
 for id in $ids; do
   for p in mutants/$id/*.patch; do
     [ -f "$p" ] || continue
-    if ! git -C /repo apply --check "$PWD/$p" 2>/dev/null; then echo "SELFTEST $id $p: patch does not apply"; rc=1; continue; fi
-    git -C /repo apply "$PWD/$p"
-    out=$(./bin/verif check $id --tier quick 2>/dev/null); code=$?
-    git -C /repo checkout -- . 
+    rm -rf "$wt"; git -C /repo worktree prune
+    git -C /repo worktree add -q --detach "$wt" HEAD || { echo "SELFTEST $id: cannot create worktree"; rc=1; continue; }
+    # carry over uncommitted changes of /repo so that the scratch tree equals the working tree
+    git -C /repo diff HEAD | git -C "$wt" apply --allow-empty 2>/dev/null
+    if ! git -C "$wt" apply "$PWD/$p" 2>/dev/null; then echo "SELFTEST $id $(basename $p): patch does not apply"; rc=1; git -C /repo worktree remove --force "$wt"; continue; fi
+    out=$(VERIF_REPO="$wt" VERIF_SCRATCH=/root/.cache/verif-selftest/build ./bin/verif check $id --tier quick 2>/dev/null); code=$?
+    git -C /repo worktree remove --force "$wt"
     if [ $code -eq 1 ] && echo "$out" | grep -q "^VIOLATION property=$id"; then
       echo "SELFTEST $id $(basename $p): detected ($(echo "$out" | grep -c '^VIOLATION') violation signatures)"
     else
@@ -20,4 +25,7 @@ for id in $ids; do
     fi
   done
 done
+# the evidence file of <ID> was rewritten by the mutated run: refresh it from the real tree
+for id in $ids; do ./bin/verif check $id --tier quick >/dev/null 2>&1; done
+rm -rf /root/.cache/verif-selftest/build
 exit $rc
